@@ -64,6 +64,15 @@ def pushdown_predicates(expression: E, dialect: DialectType = None) -> E:
                             pushdown_allowed = False
                             break
 
+                if pushdown_allowed and any(join.side == "FULL" for join in joins):
+                    # A full join null-extends the FROM source as well, so the WHERE clause also
+                    # filters the other side's unmatched rows and can't be pushed into that source
+                    selected_sources = {
+                        k: (node, source)
+                        for k, (node, source) in selected_sources.items()
+                        if not isinstance(node.find_ancestor(exp.Join, exp.From), exp.From)
+                    }
+
                 if pushdown_allowed:
                     pushdown(where.this, selected_sources, scope_ref_count, dialect, join_index)
 
